@@ -21,7 +21,7 @@ func init() {
 				Run: rulePutIsolation},
 			{ID: "C01.cmp-zero-only", Floor: 10, Clause: "the result of the user's three-way compare is only ever compared with the constant 0 (any magnitude is a valid result); xsort.LessCompare has the right signs",
 				Run: ruleCmpZeroOnly},
-			{ID: "C01.bounds", Floor: 16, Clause: "Range/RangeReverse switch over all three bound kinds (default panics); the far-end predicate compares pair.Key with the far bound's key using <= / < (reverse: >= / >) for Included / Excluded; the near end uses the inclusive seek for Included and the strict one for Excluded; Range and RangeReverse are mirror images",
+			{ID: "C01.bounds", Floor: 20, Clause: "Range/RangeReverse switch over all three bound kinds (default panics); the far-end predicate compares pair.Key with the far bound's key using <= / < (reverse: >= / >) for Included / Excluded; the near end uses the inclusive seek for Included and the strict one for Excluded; Range and RangeReverse are mirror images",
 				Run: ruleTreeBounds},
 			{ID: "C01.delegation", Floor: 15, Clause: "every exported Map/Set method that contains exactly one call of a btree method calls the same-named one (Add→Put, Remove→Delete) with its own parameters in order; Len reads size; Set's iterators project the key",
 				Run: ruleTreeDelegation},
@@ -246,112 +246,198 @@ func ruleCmpZeroOnly(c *Ctx, r *R) {
 }
 
 func ruleTreeBounds(c *Ctx, r *R) {
-	info := c.info(treeRel)
 	consts := []string{"boundInclude", "boundExclude", "boundUnbounded"}
+	kindVal := map[string]int64{}
+	for _, k := range consts {
+		if v, ok := constOf(c, treeRel, k); ok {
+			kindVal[k] = v
+		}
+	}
 	type spec struct {
-		fn        string
-		nearParam string // bound positioned with a seek
-		farParam  string // bound enforced by the While predicate
-		seekIncl  string
-		seekExcl  string
-		seekUnb   string
-		inclOp    token.Token
-		exclOp    token.Token
-		iter      string
+		fn       string
+		near     int // parameter index of the bound positioned with a seek
+		far      int // parameter index of the bound enforced by the While predicate
+		seekIncl string
+		seekExcl string
+		seekUnb  string
+		inclOp   token.Token
+		exclOp   token.Token
+		iter     string
 	}
 	for _, sp := range []spec{
-		{"Range", "lower", "upper", "SeekFirstGreaterOrEqual", "SeekFirstGreater", "SeekFirst", token.LEQ, token.LSS, "Forward"},
-		{"RangeReverse", "upper", "lower", "SeekLastLessOrEqual", "SeekLastLess", "SeekLast", token.GEQ, token.GTR, "Backward"},
+		{"Range", 1, 2, "SeekFirstGreaterOrEqual", "SeekFirstGreater", "SeekFirst", token.LEQ, token.LSS, "Forward"},
+		{"RangeReverse", 2, 1, "SeekLastLessOrEqual", "SeekLastLess", "SeekLast", token.GEQ, token.GTR, "Backward"},
 	} {
-		fd := c.decl(treeRel + ".btree." + sp.fn)
-		if fd == nil {
+		fn := c.fn(treeRel + ".btree." + sp.fn)
+		if fn == nil || len(fn.Params) < 3 {
 			r.undecided("tree.btree."+sp.fn+"|missing", token.NoPos, "anchor not found")
 			continue
 		}
-		nsw := 0
-		ast.Inspect(fd.Body, func(n ast.Node) bool {
-			sw, ok := n.(*ast.SwitchStmt)
-			if !ok {
-				return true
-			}
-			tag := render(c.Fset, sw.Tag, nil)
-			nsw++
-			which := ""
-			if tag == sp.nearParam+".type_" {
-				which = "near"
-			} else if tag == sp.farParam+".type_" {
-				which = "far"
-			}
-			key := "tree.btree." + sp.fn + "|switch:" + tag
-			if which == "" {
-				r.violated(key, sw.Pos(), "unexpected switch tag")
-				return true
-			}
-			seen := map[string]bool{}
-			hasDefaultPanic := false
-			for _, st := range sw.Body.List {
-				cc := st.(*ast.CaseClause)
-				if cc.List == nil {
-					for _, s := range cc.Body {
-						if es, ok := s.(*ast.ExprStmt); ok {
-							if call, ok := es.X.(*ast.CallExpr); ok {
-								if id, ok := call.Fun.(*ast.Ident); ok && id.Name == "panic" {
-									hasDefaultPanic = true
-								}
-							}
-						}
-					}
-					continue
-				}
-				for _, e := range cc.List {
-					id, ok := e.(*ast.Ident)
-					if !ok {
+		nearP, farP := fn.Params[sp.near], fn.Params[sp.far]
+		base := "tree.btree." + sp.fn
+		di := deepInstrs(fn, 3)
+		// kindsAt: which kind tests on which bound parameter hold (eq) / are excluded (neq) at this instruction?
+		type kf struct {
+			param *ssa.Parameter
+			kind  int64
+			eq    bool
+		}
+		kindsAt := func(d deepInstr) []kf {
+			var out []kf
+			add := func(blk *ssa.BasicBlock, chain []*ssa.Call) {
+				for _, g := range guardsOf(blk) {
+					cf, ok := g.asCmp()
+					if !ok || (cf.op != token.EQL && cf.op != token.NEQ) {
 						continue
 					}
-					seen[id.Name] = true
-					ckey := key + "|case:" + id.Name
-					body := render(c.Fset, &ast.BlockStmt{List: cc.Body}, nil)
-					_ = body
-					var atoms []string
-					collectAtoms(c.Fset, &ast.BlockStmt{List: cc.Body}, nil, nil, &atoms)
-					joined := strings.Join(atoms, " ; ")
-					if which == "near" {
-						want := map[string]string{"boundInclude": sp.seekIncl, "boundExclude": sp.seekExcl, "boundUnbounded": sp.seekUnb}[id.Name]
-						arg := "(" + sp.nearParam + ".key)"
-						if id.Name == "boundUnbounded" {
-							arg = "()"
-						}
-						r.ok(strings.Contains(joined, "c."+want+arg) && strings.Count(joined, "Seek") == 1, ckey, cc.Pos(), "the "+sp.nearParam+" bound of kind "+id.Name+" must position the cursor with "+want+arg+" (an Excluded bound must not yield its own key, an Included one must)")
+					x, y := cf.x, cf.y
+					if _, isK := x.(*ssa.Const); isK {
+						x, y = y, x
+					}
+					k, ok := y.(*ssa.Const)
+					if !ok || k.Value == nil || !isIntegerish(k.Type()) {
+						continue
+					}
+					pv := valueProv(x, provEnv{chain: chain})
+					pp, ok := pv.root.(*ssa.Parameter)
+					if !ok || len(pv.fields) != 1 || pv.fields[0] != "type_" {
+						continue
+					}
+					out = append(out, kf{pp, k.Int64(), cf.op == token.EQL})
+				}
+			}
+			add(d.in.Block(), d.calls)
+			// facts that hold at the call sites along the chain
+			for i := len(d.calls) - 1; i >= 0; i-- {
+				add(d.calls[i].Block(), d.calls[:i])
+			}
+			return out
+		}
+		kindOf := func(d deepInstr, p *ssa.Parameter) (int64, bool) {
+			for _, f := range kindsAt(d) {
+				if f.param == p && f.eq {
+					return f.kind, true
+				}
+			}
+			return 0, false
+		}
+		// near end: one seek per kind
+		seeks := map[int64][]deepInstr{}
+		whiles := map[int64][]deepInstr{}
+		plainIter := map[int64]bool{}
+		panics := map[*ssa.Parameter]bool{}
+		isSeek := func(cal *ssa.Function) bool {
+			return cal != nil && cal.Signature.Recv() != nil && isNamedType(cal.Signature.Recv().Type(), treeRel, "cursor") && strings.HasPrefix(cal.Name(), "Seek")
+		}
+		for _, d := range di {
+			inner := false
+			for _, cc := range d.calls {
+				if isSeek(staticCallee(&cc.Call)) {
+					inner = true // inside a seek method itself
+				}
+			}
+			if inner {
+				continue
+			}
+			switch x := d.in.(type) {
+			case *ssa.Call:
+				cal := staticCallee(&x.Call)
+				if cal == nil {
+					continue
+				}
+				if cal.Signature.Recv() != nil && isNamedType(cal.Signature.Recv().Type(), treeRel, "cursor") && strings.HasPrefix(cal.Name(), "Seek") {
+					if k, ok := kindOf(d, nearP); ok {
+						seeks[k] = append(seeks[k], d)
 					} else {
-						// far end: predicate over pair.Key vs far.key
-						switch id.Name {
-						case "boundUnbounded":
-							r.ok(strings.Contains(joined, "return c."+sp.iter+"()") && !strings.Contains(joined, "While"), ckey, cc.Pos(), "an Unbounded "+sp.farParam+" end returns the plain "+sp.iter+" iterator")
-						default:
-							op := sp.inclOp
-							if id.Name == "boundExclude" {
-								op = sp.exclOp
+						r.violated(base+"|seek-outside-kind-test:"+cal.Name(), x.Pos(), "a cursor seek in "+sp.fn+" that is not selected by the kind of its "+nearP.Name()+" bound")
+					}
+				}
+				if cal.Name() == "While" && cal.Pkg != nil && strings.HasSuffix(cal.Pkg.Pkg.Path(), "/iterator") || (cal.Pkg == nil && strings.HasPrefix(cal.Name(), "While")) {
+					if k, ok := kindOf(d, farP); ok {
+						whiles[k] = append(whiles[k], d)
+					} else {
+						r.violated(base+"|while-outside-kind-test", x.Pos(), "an iterator.While in "+sp.fn+" that is not selected by the kind of its "+farP.Name()+" bound")
+					}
+				}
+			case *ssa.Return:
+				if len(x.Results) == 1 && len(d.calls) == 0 || (len(x.Results) == 1) {
+					if call, ok := resolveVal(x.Results[0]).(*ssa.Call); ok {
+						if cal := staticCallee(&call.Call); cal != nil && cal.Name() == sp.iter {
+							if k, ok := kindOf(d, farP); ok {
+								plainIter[k] = true
 							}
-							want := ".Key, " + sp.farParam + ".key) " + op.String() + " 0"
-							r.ok(strings.Contains(joined, want) && strings.Contains(joined, "compare(") && strings.Contains(joined, "While(c."+sp.iter+"()"), ckey, cc.Pos(), "the "+sp.farParam+" bound of kind "+id.Name+" must cut the iteration with the predicate `"+want+"`")
 						}
 					}
 				}
-			}
-			for _, k := range consts {
-				if !seen[k] {
-					r.violated(key+"|case:"+k, sw.Pos(), "the switch over the bound kind does not handle "+k)
+			case *ssa.Panic:
+				for _, p := range []*ssa.Parameter{nearP, farP} {
+					neq := map[int64]bool{}
+					for _, f := range kindsAt(d) {
+						if f.param == p && !f.eq {
+							neq[f.kind] = true
+						}
+					}
+					if len(neq) >= 3 {
+						panics[p] = true
+					}
 				}
 			}
-			r.ok(hasDefaultPanic, key+"|default-panics", sw.Pos(), "an unknown bound kind must panic rather than fall through")
-			return true
-		})
-		if nsw != 2 {
-			r.violated("tree.btree."+sp.fn+"|two-switches", fd.Pos(), "expected one switch per bound, found "+itoa(nsw))
 		}
+		for _, kn := range consts {
+			kv := kindVal[kn]
+			ckey := base + "|near:" + kn
+			want := map[string]string{"boundInclude": sp.seekIncl, "boundExclude": sp.seekExcl, "boundUnbounded": sp.seekUnb}[kn]
+			ss := seeks[kv]
+			if len(ss) != 1 {
+				r.violated(ckey, fn.Pos(), "the "+nearP.Name()+" bound of kind "+kn+" must position the cursor with exactly one seek ("+want+"), found "+itoa(len(ss)))
+				continue
+			}
+			call := ss[0].in.(*ssa.Call)
+			cal := staticCallee(&call.Call)
+			good := cal.Name() == want
+			why := "calls " + cal.Name()
+			if good && kn != "boundUnbounded" {
+				if len(call.Call.Args) != 2 {
+					good, why = false, "wrong arity"
+				} else if pv := valueProv(call.Call.Args[1], provEnv{chain: ss[0].calls}); !pv.isParamField(nearP, "key") {
+					good, why = false, "seeks to "+pv.String()+" instead of "+nearP.Name()+".key"
+				}
+			}
+			r.ok(good, ckey, call.Pos(), "the "+nearP.Name()+" bound of kind "+kn+" must position the cursor with "+want+"("+nearP.Name()+".key) (an Excluded bound must not yield its own key, an Included one must): "+why)
+		}
+		for _, kn := range consts {
+			kv := kindVal[kn]
+			ckey := base + "|far:" + kn
+			if kn == "boundUnbounded" {
+				r.ok(plainIter[kv] && len(whiles[kv]) == 0, ckey, fn.Pos(), "an Unbounded "+farP.Name()+" end returns the plain "+sp.iter+" iterator")
+				continue
+			}
+			ws := whiles[kv]
+			if len(ws) != 1 {
+				r.violated(ckey, fn.Pos(), "the "+farP.Name()+" bound of kind "+kn+" must cut the iteration with exactly one iterator.While, found "+itoa(len(ws)))
+				continue
+			}
+			call := ws[0].in.(*ssa.Call)
+			op := sp.inclOp
+			if kn == "boundExclude" {
+				op = sp.exclOp
+			}
+			why := ""
+			// first argument: the cursor's iterator in the right direction
+			if ic, ok := resolveVal(call.Call.Args[0]).(*ssa.Call); !ok || staticCallee(&ic.Call) == nil || staticCallee(&ic.Call).Name() != sp.iter {
+				why = "the iterated sequence is not c." + sp.iter + "()"
+			}
+			pred, recv := funcAndReceiver(call.Call.Args[1])
+			if pred == nil {
+				why = "cannot resolve the predicate"
+			} else if why == "" {
+				why = boundPredicate(pred, recv, ws[0].calls, farP, op)
+			}
+			r.ok(why == "", ckey, call.Pos(), "the "+farP.Name()+" bound of kind "+kn+" must cut the iteration with the predicate compare(pair.Key, "+farP.Name()+".key) "+op.String()+" 0: "+why)
+		}
+		r.ok(panics[nearP], base+"|near:default-panics", fn.Pos(), "an unknown kind of the "+nearP.Name()+" bound must panic rather than fall through")
+		r.ok(panics[farP], base+"|far:default-panics", fn.Pos(), "an unknown kind of the "+farP.Name()+" bound must panic rather than fall through")
 	}
-	_ = info
-	mirrorPair(c, r, "tree|Range~RangeReverse", treeRel+".btree.Range", treeRel+".btree.RangeReverse", treeSeekDuality)
 	// the three bound constructors set the kind their name says
 	for ctor, kind := range map[string]string{"Included": "boundInclude", "Excluded": "boundExclude", "Unbounded": "boundUnbounded"} {
 		fd := c.decl(treeRel + "." + ctor)
@@ -659,4 +745,68 @@ func ruleTreeFirstLast(c *Ctx, r *R) {
 		r.ok(zeroOK, "tree.btree."+sp[0]+"|zero-when-empty", fn.Pos(), sp[0]+" on an empty tree must return zero values")
 		r.ok(entryOK, "tree.btree."+sp[0]+"|extreme-entry", fn.Pos(), sp[0]+" must return key and value from the same slot ("+sp[2]+") of the "+sp[1])
 	}
+}
+
+// boundPredicate checks that pred (a closure, or a method with receiver value recv bound at the MakeClosure) returns
+// compare(<its parameter>.Key, far.key) OP 0 on every return.
+func boundPredicate(pred *ssa.Function, recv ssa.Value, chain []*ssa.Call, farP *ssa.Parameter, op token.Token) string {
+	env := provEnv{chain: chain, bind: map[*ssa.FreeVar]ssa.Value{}}
+	var recvParam *ssa.Parameter
+	if recv != nil && len(pred.Params) > 0 {
+		recvParam = pred.Params[0]
+	}
+	nret := 0
+	why := ""
+	instrs(pred, func(b *ssa.BasicBlock, i int, in ssa.Instruction) {
+		ret, ok := in.(*ssa.Return)
+		if !ok || len(ret.Results) != 1 || why != "" {
+			return
+		}
+		nret++
+		bo, ok := resolveVal(ret.Results[0]).(*ssa.BinOp)
+		if !ok {
+			why = "the predicate does not return a comparison"
+			return
+		}
+		x, y, o := bo.X, bo.Y, bo.Op
+		if isConstInt(x, 0) {
+			x, y, o = y, x, flip(o)
+		}
+		if !isConstInt(y, 0) || o != op {
+			why = "the predicate compares with " + o.String() + " " + path(y)
+			return
+		}
+		call, ok := resolveVal(x).(*ssa.Call)
+		if !ok || len(call.Call.Args) != 2 || !strings.HasSuffix(path(call.Call.Value), "compare") {
+			why = "the compared value is not a call of the tree's compare"
+			return
+		}
+		// first argument: the pair's key (a field Key of the predicate's own parameter)
+		a0 := valueProv(call.Call.Args[0], provEnv{})
+		if pp, ok := a0.root.(*ssa.Parameter); !ok || pp.Parent() != pred || len(a0.fields) != 1 || a0.fields[0] != "Key" || pp == recvParam {
+			why = "compare's first argument is " + a0.String() + ", not the pair's Key"
+			return
+		}
+		// second argument: far.key
+		a1 := valueProv(call.Call.Args[1], env)
+		if recvParam != nil && a1.root == ssa.Value(recvParam) {
+			// selected from the bound receiver: continue in the creating function
+			rp := valueProv(recv, provEnv{chain: chain})
+			if al, ok := rp.root.(*ssa.Alloc); ok || rp.root != nil {
+				_ = al
+				full := prov{rp.root, append(append([]string{}, rp.fields...), a1.fields...), rp.chain}
+				if cell, ok := full.root.(*ssa.Alloc); ok {
+					full = loadProv(prov{cell, full.fields, rp.chain}, provEnv{chain: rp.chain})
+				}
+				a1 = full
+			}
+		}
+		if !a1.isParamField(farP, "key") {
+			why = "compare's second argument is " + a1.String() + ", not " + farP.Name() + ".key"
+		}
+	})
+	if why == "" && nret == 0 {
+		why = "the predicate has no return"
+	}
+	return why
 }
